@@ -298,22 +298,46 @@ pub fn run(ctx: &Ctx, rep: &mut Report) {
         } else {
             // every third world: unusual settings of the input-text plugins (empty / longer replacement ...)
             let odd_cfg = wi % 3 == 1;
-            // every 32nd world asks for 14 or 15 user dictionaries (15 must be refused when loading)
-            let many = wi % 32 == 5;
+            // every 8th world asks for 14 or 15 user dictionaries (15 must be refused when loading)
+            let many = wi % 8 == 5;
             guard(|| crate::scen::build_world_tweak(&mut rng, &dopts, true, place, |r, p| {
                 if odd_cfg {
                     p.randomize_input_cfg(r)
                 }
                 if many {
-                    p.n_users = 14 + r.below(2);
+                    p.n_users = if r.chance(2, 3) { 15 } else { 14 };
                 }
             }))
+        };
+        // every 16th world instead: 15 user dictionaries, the last one with many cheap words. One too many: loading must
+        // refuse the stack (counted); if it ever loads, its words are analysed like all others
+        let built = if wi % 16 == 13 && !small {
+            guard(|| {
+                let matrix = dictgen::gen_matrix(&mut rng, &dopts);
+                let sys = dictgen::gen_system(&mut rng, &dopts, &matrix);
+                let nid = matrix.nid() as i64;
+                let mut users: Vec<Lexicon> = (0..15).map(|l| dictgen::gen_user(&mut rng, &dopts, &matrix, &sys, l)).collect();
+                let pool = dictgen::pos_pool();
+                for k in 0..200 {
+                    let key = format!("末{}{}", rng.s(textgen::HIRA), k);
+                    users[14].entries.push(Entry::simple(&key, rng.range(0, nid - 1) as i16, rng.range(0, nid - 1) as i16, -3000, rng.pick(&pool)));
+                }
+                let mut p = PluginOpts::random(&mut rng, &matrix, true);
+                p.n_users = 15;
+                crate::scen::build_world_users(&mut rng, &dopts, matrix, sys, Some(users), p, place)
+            })
+        } else {
+            built
         };
         let world = match built {
             Ok(Ok(w)) => w,
             Ok(Err(e)) => {
                 rep.count("worlds_rejected", 1);
-                rep.notes.push(format!("world {}: {}", wi, clip(&e, 200)));
+                if e.contains("TooManyDictionaries") {
+                    rep.count("stacks_of_15_user_dictionaries_refused", 1);
+                } else {
+                    rep.notes.push(format!("world {}: {}", wi, clip(&e, 200)));
+                }
                 continue;
             }
             Err(p) => {
@@ -370,6 +394,14 @@ pub fn run(ctx: &Ctx, rep: &mut Report) {
                     texts.push((String::new(), None));
                     texts.push((String::new(), None));
                 }
+            }
+        }
+        if world.users.len() >= 15 {
+            // texts made of the words of the last layer
+            let last: Vec<String> = world.users[14].entries.iter().filter(|e| e.key.starts_with('末')).map(|e| e.key.clone()).collect();
+            for _ in 0..30 {
+                let t: String = (0..3).map(|_| rng.pick(&last[..]).clone()).collect();
+                texts.push((t, None));
             }
         }
         let mut last_mi = 0usize;
